@@ -320,6 +320,25 @@ def catalogue(big=False):
                                {"o": ref("SUB", "k")})], "TOP",
                      {"outer": {"a": 1, "a/fork_b": 2}, "inner": {"b/fork_c": 10, "c": 20}}))
 
+    # 14e. a mapped pipeline whose only return value is a literal; a run-time outer map with a
+    #      static inner one
+    P.append(program("map_pipe_literal", [], [S_const("G", "int[] ys", {"ys": [1, 2, 3]}), S_echo("A")],
+                     [pipeline("SUB", "int x", "int k, int y",
+                               [call("A", binds={"x": self_("x")})], {"k": lit(7), "y": ref("A", "y")}),
+                      pipeline("SUBL", "int x", "int k",
+                               [call("A", binds={"x": self_("x")})], {"k": lit(7)}),
+                      pipeline("TOP", "", "int[] ks, int[] ys, int[] ls",
+                               [call("G"), call("SUB", binds={"x": split(ref("G", "ys"))}, mode="array"),
+                                call("SUBL", binds={"x": split(ref("G", "ys"))}, mode="array")],
+                               {"ks": ref("SUB", "k"), "ys": ref("SUB", "y"), "ls": ref("SUBL", "k")})], "TOP", {}))
+    P.append(program("map_dyn_static", [], [S_const("G", "int[] ys", {"ys": [1, 2, 3]}), stage("ADD", "int a, int b", "string r", {"r": INST})],
+                     [pipeline("SUB", "int n", "string[] rs",
+                               [call("ADD", binds={"a": self_("n"), "b": split(lit([10, 20]))}, mode="array")],
+                               {"rs": ref("ADD", "r")}),
+                      pipeline("TOP", "", "string[][] o",
+                               [call("G"), call("SUB", binds={"n": split(ref("G", "ys"))}, mode="array")],
+                               {"o": ref("SUB", "rs")})], "TOP", {}))
+
     # 15. typed maps with keys that stress fork naming and journal routing
     for nm, keys in (("keys_suffix", ["a_b", "b"]), ("keys_encoded", ["a b", "a%20b"]),
                      ("keys_dots", ["k.1", "k/1", "%2E"]), ("keys_fork", ["fork1", "chnk0", "u0123456789"])):
@@ -371,3 +390,20 @@ def catalogue(big=False):
 def INST_ARR():
     """array output whose two elements depend on the stage's input n: [n*10, n*10+1]"""
     return {"k": "arr2", "src": "n"}
+
+
+def nested_nonuniform():
+    """statically nested arrays whose inner arrays differ in length, are empty or null: the
+    runtime mishandles them (recorded findings of C03); kept out of catalogue() because every
+    check that runs the catalogue would report the same thing"""
+    P = []
+    for nm, xss in (("nest_static_empty", [[1, 2], [], [3]]), ("nest_static_null", [[1], None, [2, 3]]),
+                    ("nest_static_empty_first", [[], [1, 2]]), ("nest_static_ragged", [[1, 2], [3]]),
+                    ("nest_static_uniform", [[1, 2], [3, 4]])):
+        P.append(program(nm, [], [S_echo("X")],
+                         [pipeline("SUB", "int[] xs", "int[] ys",
+                                   [call("X", binds={"x": split(self_("xs"))}, mode="array")], {"ys": ref("X", "y")}),
+                          pipeline("TOP", "int[][] xss", "int[][] o",
+                                   [call("SUB", binds={"xs": split(self_("xss"))}, mode="array")], {"o": ref("SUB", "ys")})],
+                         "TOP", {"xss": xss}))
+    return P
